@@ -1450,9 +1450,15 @@ fn canon(v: Value) -> Value {
 }
 
 /// put(key,v1); checkpoint A; +1 ms; put(key,v2); [limit file size]; checkpoint B
-fn realcrash_template(path: &Path, key: &str, v1: &Value, v2: &Value, limit: Option<u64>) -> Result<(String, String), String> {
+/// `full`: the store retains ONE checkpoint, so its history is full when B is taken (retention has to drop A -- after B
+/// is complete, never before)
+fn realcrash_template(path: &Path, key: &str, v1: &Value, v2: &Value, limit: Option<u64>, full: bool) -> Result<(String, String), String> {
     set_clock_ms(Some(T0));
-    let mut st = StateStore::new(StateBackend::File { path: path.to_path_buf() });
+    let mut st = if full {
+        StateStore::with_config(StateConfig { backend: StateBackend::File { path: path.to_path_buf() }, max_checkpoints: 1, ..Default::default() })
+    } else {
+        StateStore::new(StateBackend::File { path: path.to_path_buf() })
+    };
     st.put(key, v1.clone()).map_err(|e| e.to_string())?;
     let a = st.checkpoint("A").map_err(|e| e.to_string())?;
     set_clock_ms(Some(T0 + 1));
@@ -1494,7 +1500,8 @@ fn realcrash_child(spec_path: &str) -> Verdict {
         Ok(v) => v,
         Err(_) => return Verdict::fail("realcrash-child-spec", "v2"),
     };
-    match realcrash_template(&path, &key, &v1, &v2, Some(k)) {
+    let full = spec["full"].as_bool().unwrap_or(false);
+    match realcrash_template(&path, &key, &v1, &v2, Some(k), full) {
         Ok(_) => Verdict::Pass,
         // checkpoint returned Err instead of the process being killed: tell the parent via the exit code
         Err(e) => Verdict::fail("realcrash-child-survived-with-err", e),
@@ -1511,17 +1518,20 @@ pub fn run_realcrash(s: &mut Src, ctx: &mut Ctx) -> Verdict {
     let v1 = canon(gen_val(s, 0, false, false, &mut fl));
     let v2 = canon(gen_val(s, 0, false, false, &mut fl));
     let kfrac = s.below(1024);
+    // every second case (by the drawn fraction: no further draw) runs on a store that retains one checkpoint only
+    let full = kfrac % 2 == 1;
     if probe_only() {
         return Verdict::Pass;
     }
     ctx.describe(|| {
         format!(
-            "real crash: put({:?}, {}); checkpoint A; advance(1ms); put({:?}, {}); checkpoint B in a child process under RLIMIT_FSIZE = {}/1024 of (n+2)",
+            "real crash: put({:?}, {}); checkpoint A; advance(1ms); put({:?}, {}); checkpoint B in a child process under RLIMIT_FSIZE = {}/1024 of (n+2){}",
             key,
             fmt_val(&v1),
             key,
             fmt_val(&v2),
-            kfrac
+            kfrac,
+            if full { "; max_checkpoints = 1 (the history is full when B is taken)" } else { "" }
         )
     });
     let dir = fresh_dir();
@@ -1531,7 +1541,8 @@ pub fn run_realcrash(s: &mut Src, ctx: &mut Ctx) -> Verdict {
     let _ = std::fs::create_dir_all(&pdir);
     let _ = std::fs::create_dir_all(&cdir);
     // reference run in this process, no limit
-    let (a_id, b_id) = match realcrash_template(&pdir, &key, &v1, &v2, None) {
+    // (the reference run keeps both checkpoints whatever `full` is: it only supplies ids and complete files)
+    let (a_id, b_id) = match realcrash_template(&pdir, &key, &v1, &v2, None, false) {
         Ok(x) => x,
         Err(e) => return Verdict::fail("checkpoint-err", format!("reference run: {}", e)),
     };
@@ -1546,6 +1557,7 @@ pub fn run_realcrash(s: &mut Src, ctx: &mut Ctx) -> Verdict {
         "path": cdir.to_string_lossy(),
         "key": key,
         "k": k,
+        "full": full,
         "v1": serde_json::to_value(&v1).unwrap_or(serde_json::Value::Null),
         "v2": serde_json::to_value(&v2).unwrap_or(serde_json::Value::Null),
     });
@@ -1604,9 +1616,16 @@ pub fn run_realcrash(s: &mut Src, ctx: &mut Ctx) -> Verdict {
         m.iter().map(|(d, f)| format!("{}: {}", d, f.as_ref().map(|b| format!("state.json {} bytes", b.len())).unwrap_or("no state.json".into()))).collect::<Vec<_>>().join(", ")
     };
     let want = &b_json[..k.min(n)];
-    let in_enumeration = left.len() == 2
-        && left.get(&a_id).map(|f| f.as_deref() == Some(&a_json[..])).unwrap_or(false)
-        && left.get(&b_id).map(|f| f.as_deref() == Some(want)).unwrap_or(false);
+    // (a store that retains one checkpoint and SURVIVED has dropped A after completing B: that is the enumerated
+    // state "complete, retention done")
+    let a_dropped = full && k >= n;
+    let in_enumeration = if a_dropped {
+        left.len() == 1 && left.get(&b_id).map(|f| f.as_deref() == Some(want)).unwrap_or(false)
+    } else {
+        left.len() == 2
+            && left.get(&a_id).map(|f| f.as_deref() == Some(&a_json[..])).unwrap_or(false)
+            && left.get(&b_id).map(|f| f.as_deref() == Some(want)).unwrap_or(false)
+    };
     if !in_enumeration {
         return Verdict::fail(
             "realcrash:state-not-enumerated",
@@ -1627,7 +1646,10 @@ pub fn run_realcrash(s: &mut Src, ctx: &mut Ctx) -> Verdict {
     rec_b.insert(key.clone(), v2.clone());
     let cp_a = Cp { id: a_id.clone(), rec: rec_a, at: T0, expiries: vec![] };
     let cp_b = Cp { id: b_id.clone(), rec: rec_b, at: T0 + 1, expiries: vec![] };
-    let mut j = CrashJudge { path: &cdir, keys: &keys, b: &cp_b, earlier: vec![(&cp_a, "")], restores: 0 };
+    let mut j = CrashJudge { path: &cdir, keys: &keys, b: &cp_b, earlier: if a_dropped { vec![] } else { vec![(&cp_a, "")] }, restores: 0 };
+    if full {
+        ctx.label("realcrash:history-full(max_checkpoints=1)");
+    }
     if let Err(v) = j.judge(&format!("real crash, RLIMIT_FSIZE={} of {} bytes", k, n), true, k >= n) {
         return v;
     }
